@@ -60,6 +60,44 @@ def compile_grouped(topo, symtype, numeric, compact, declare):
     return compiled.Compiled(F, built, symbolic, ins, outs, named, info, numeric)
 
 
+PUBLIC_KEY = {"rhocrit": "rho_crit", "vfree": "v_free", "a": "a", "C": "C"}
+
+
+def public_declare(topo, kinds, seed):
+    """at most one parameter per kind (keys must be unique): the element is picked by the seed"""
+    out = []
+    for k in kinds:
+        ns = names_of(topo, (k,))
+        if ns:
+            out.append(ns[seed % len(ns)])
+    return out
+
+
+def compile_public(topo, symtype, numeric, compact, declare):
+    """the declared parameters are keyed by the library's own parameter names ('rho_crit', 'v_free', 'a', 'C', 'tau', ...), as in
+    the upstream tests; each symbol still belongs to ONE element only (e.g. the critical density of one link); flows are
+    requested as well (more_out=True)"""
+    from vlib import layout, sx2smt
+
+    P, symbolic = runs.cas_params(topo, symtype, numeric)
+    built = T_.build(topo, P)
+    eng = runs.casadi_engine(symtype)
+    kw = T_.model_kwargs(topo, P)
+    built.net.step(engine=eng, **runs.NOFLAGS, **kw)
+    keyof = lambda n: PUBLIC_KEY.get(n.split("_")[0], n.split("_")[0])
+    params = {keyof(n): symbolic[n] for n in declare}
+    assert len(params) == len(declare)
+    others = {k: v for k, v in kw.items() if k not in params and k not in symbolic}
+    F = eng.to_function(built.net, compact=compact, more_out=True, parameters=params, **others)
+    decl = [(keyof(n), [n]) for n in declare]
+    ins, outs = layout.expected(topo, built, compact, decl, True)
+    got_in = [F.size1_in(i) * F.size2_in(i) for i in range(F.n_in())]
+    if got_in != [len(z) for _, z in ins]:
+        raise compiled.LayoutMismatch(f"arguments {[(F.name_in(i), got_in[i]) for i in range(F.n_in())]}; documented layout {[(n, len(z)) for n, z in ins]}")
+    named, info = sx2smt.translate(F, layout.binder(ins))
+    return compiled.Compiled(F, built, symbolic, ins, outs, named, info, numeric)
+
+
 def work(item):
     tj, symtype, compact, kinds, seed, timeout_ms, reverse = item[:7]
     grouped = len(item) > 7 and item[7]
@@ -71,17 +109,22 @@ def work(item):
     vals = numrun.exact_params(topo, seed)
     mainstream = has_main(topo)
     declare = names_of(topo, kinds)
+    if grouped == "public":
+        declare = public_declare(topo, kinds, seed)
+        tag += "/library-keys+flows"
     if reverse:
         declare = list(reversed(declare))
     numA = {k: v for k, v in vals.items() if k not in declare}
     D = [netcheck.apply_numeric(c, vals) for c in ref_metanet.admissible_domain(topo)]
     D = [c for c in D if not z3.is_true(z3.simplify(c))]
     try:
-        if grouped:
+        if grouped == "public":
+            A = compile_public(topo, symtype, numA, compact, declare)
+        elif grouped:
             A = compile_grouped(topo, symtype, numA, compact, declare)
         else:
             A = compiled.compile_terms(topo, symtype, numA, compact, False, None, declare, check_names=True, dual_route=reverse, same_display_names=reverse)
-        B = compiled.compile_terms(topo, symtype, dict(vals), compact, False, None, [], check_names=True)
+        B = compiled.compile_terms(topo, symtype, dict(vals), compact, grouped == "public", None, [], check_names=True)
     except compiled.LayoutMismatch as e:
         acc.exec_violation(PID, topo, f"casadi[{tag}]", "array", f"layout: {e}", extra={"numeric": numA, "compact": compact})
         return acc.done()
@@ -123,7 +166,7 @@ def work(item):
             return {"key": f"param:{topo.name}:{tag}:{slot}", "group": f"param:{topo.name}:{'+'.join(kinds)}",
                     "what": f"{topo.describe()} | {tag}: entry {slot} = {a!r} with symbolic parameters evaluated at their values, {b!r} with plain numbers",
                     "replay": {"property": PID, "kind": "param", "topo": topo.to_json(), "symtype": symtype, "compact": compact, "kinds": list(kinds), "seed": seed,
-                               "reverse": reverse, "env": env, "slot": list(slot)}}
+                               "reverse": reverse, "env": env, "slot": list(slot), "mode": grouped if isinstance(grouped, str) else ("grouped" if grouped else "plain")}}
 
         acc.query(prover, topo, f"casadi[{tag}]", f"entry {slot}: symbolic parameters at their values == plain numbers", ta == sb.t, D, (), on_sat)
     return acc.done(prover)
@@ -136,10 +179,19 @@ def replay(rec):
     topo = T_.Topo.from_json(rec["topo"])
     vals = numrun.exact_params(topo, rec["seed"])
     declare = names_of(topo, rec["kinds"])
+    mode = rec.get("mode", "plain")
+    if mode == "public":
+        declare = public_declare(topo, rec["kinds"], rec["seed"])
     if rec["reverse"]:
         declare = list(reversed(declare))
-    A = compiled.compile_terms(topo, rec["symtype"], {k: v for k, v in vals.items() if k not in declare}, rec["compact"], False, None, declare, dual_route=rec["reverse"], same_display_names=rec["reverse"])
-    B = compiled.compile_terms(topo, rec["symtype"], dict(vals), rec["compact"], False, None, [])
+    numA = {k: v for k, v in vals.items() if k not in declare}
+    if mode == "public":
+        A = compile_public(topo, rec["symtype"], numA, rec["compact"], declare)
+    elif mode == "grouped":
+        A = compile_grouped(topo, rec["symtype"], numA, rec["compact"], declare)
+    else:
+        A = compiled.compile_terms(topo, rec["symtype"], numA, rec["compact"], False, None, declare, dual_route=rec["reverse"], same_display_names=rec["reverse"])
+    B = compiled.compile_terms(topo, rec["symtype"], dict(vals), rec["compact"], mode == "public", None, [])
     slot = tuple(rec["slot"])
     a, b = A.numeric_call(rec["env"])[slot], B.numeric_call(rec["env"])[slot]
     print(f"entry {slot}: symbolic parameters -> {a!r}; plain numbers -> {b!r}")
@@ -178,6 +230,10 @@ def main():
         if args.thorough or k % 3 == 0:
             for st in ("SX", "MX"):
                 items.append((t.to_json(), st, (k + (st == "MX")) % 3, ("rhocrit", "vfree", "a", "T") if k % 2 else ("rhocrit", "C", "tau"), args.seed + k, timeout, False, True))
+    # declared under the library's own keys ('rho_crit', 'v_free', 'a', 'C', ...), one element's symbol per key, flows requested too
+    for k, t in enumerate(K):
+        for j in range(4 if args.thorough else 2):
+            items.append((t.to_json(), ("SX", "MX")[(k + j) % 2], (k + j) % 3, (KINDS, ("rhocrit", "C", "T"), ("vfree", "a", "delta"), ("rhocrit", "vfree"))[(k + j) % 4], args.seed + k + j, timeout, False, "public"))
     if args.only:
         items = [it for it in items if args.only in it[0]["name"]]
     results = harness.pmap(work, items, args.serial)
@@ -186,7 +242,8 @@ def main():
         tot, levels, samples, st, len(items),
         "program = (topology, SX|MX, compactness level, subset of parameter kinds made symbolic, declared order natural|reversed -- in the reversed programs the model "
         "parameters are additionally forwarded as **other_parameters, the second documented route, and all symbols of one kind share one display name); one query per result entry: "
-        "IR with symbolic parameters, numbers substituted == IR compiled with plain numbers",
+        "IR with symbolic parameters, numbers substituted == IR compiled with plain numbers; 'library-keys+flows' programs declare one element's symbol per kind under the "
+        "library's own parameter name (rho_crit, v_free, a, C, tau, ...) and compare the flow outputs (more_out) as well",
         {"bounds": {"family": "K (20 curated, mainstream origins included)" + (" + E(3,4); all 512 subsets on the test network" if args.thorough else "; 13 subsets on 3 topologies, 4 rotating subsets on the others"),
                     "parameter_values": "dyadic / power-of-two divisors so that float constant folding is exact"},
          "functions_encoded": ["Engine.to_function(parameters=...) / _add_parameters_to_inputs IR", "element layer with symbolic vs numeric parameters (CasADi engine)"]})
